@@ -223,6 +223,16 @@ class FindRuleSize(Transformer):
         return max(self._args_as_int(args))
 
 
+def _filter_out_signature(x):
+    if isinstance(x, Terminal):
+        return x.filter_out
+    if isinstance(x, Tree):
+        return tuple(_filter_out_signature(c) for c in x.children)
+    if isinstance(x, tuple):
+        return tuple(_filter_out_signature(c) for c in x)
+    return None
+
+
 @inline_args
 class EBNF_to_BNF(Transformer_InPlace):
     def __init__(self):
@@ -239,8 +249,10 @@ class EBNF_to_BNF(Transformer_InPlace):
 
     def _cache_key(self, key):
         # A helper rule gets the options of the rule it was created for (see _add_rule), so
-        # it may only be shared between rules that agree on keep_all_tokens
-        return key, bool(self.rule_options and self.rule_options.keep_all_tokens)
+        # it may only be shared between rules that agree on keep_all_tokens. It also keeps the
+        # symbols it was created from, and Terminal equality ignores filter_out.
+        keep_all_tokens = bool(self.rule_options and self.rule_options.keep_all_tokens)
+        return key, keep_all_tokens, _filter_out_signature(key)
 
     def _add_rule(self, key, name, expansions):
         t = NonTerminal(name)
